@@ -180,7 +180,10 @@ func (c *syncMap) Walk(walkFn func(e Entry) error) (int, error) {
 	var lastErr error
 
 	c.data.Range(func(key, value interface{}) bool {
-		err := walkFn(value.(*TraitEntry))
+		v := value.(*TraitEntry) //nolint // Panic on type assertion failure is fine here.
+
+		// Passing a copy, usage counter of the stored entry is updated concurrently by readers.
+		err := walkFn(TraitEntry{K: v.K, V: v.V, E: v.E, C: atomic.LoadInt64(&v.C)})
 		if err != nil {
 			lastErr = err
 
